@@ -25,6 +25,7 @@ package c16
 import (
 	"bytes"
 	"encoding/binary"
+	"errors"
 	"fmt"
 	"io"
 	"net"
@@ -374,6 +375,7 @@ func FuzzStream(f *testing.F) {
 	f.Add(append(append([]byte{}, valid...), 0x7f, 0xff, 0xff, 0xff, 0xff, 0xff, 0xff, 0xff, 1, 2, 3), false, uint8(4))
 	f.Add(append(append([]byte{}, valid...), 1, 0, 0, 0, 0, 0, 0, 0, 3, 'a', 'b', 'c'), true, uint8(1))
 	f.Add(valid[:5], false, uint8(0))
+	f.Add([]byte("\x00SP\x00\x00\x10\x00\x000\x00\x00\x00\x00\x00\x00\x00\x03000"), true, uint8(1)) // IPC prefix byte != 1
 	f.Add([]byte{0, 'S', 'P', 1, 0, 0x10, 0, 0}, false, uint8(0))
 	f.Add(append(append([]byte{}, valid...), 0, 0, 0, 0, 0, 0x10, 0, 1), false, uint8(5))
 	f.Fuzz(func(t *testing.T, data []byte, ipc bool, lsel uint8) {
@@ -408,7 +410,7 @@ func FuzzStream(f *testing.F) {
 			if werr != nil {
 				if err == nil {
 					// the IPC prefix byte value is not asserted (assumption): re-parse leniently
-					if ipc && werr == wire.ErrBadPrefix {
+					if ipc && errors.Is(werr, wire.ErrBadPrefix) {
 						m.Free()
 						return
 					}
